@@ -8,6 +8,12 @@ OBLIGATIONS = [
        bound='one polygon (3 vertices) / one label (reflection, magnification 1 or 2) / one reference between two cells (reflection, magnification 1 or 0.5); coordinates within +-2^20, 15-bit tags; unit = precision = 1e-9',
        variants=[{'ELEM': 0, 'PHASE': ph} for ph in (1, 2)] + [{'ELEM': e, 'WITH_MAG': m, 'REFL': f, 'PHASE': ph} for e in (1, 2) for (m, f) in ((0, 0), (1, 1), (0, 1)) for ph in (1, 2, 3)],
        unwind=165, timeout=600, mem_gb=14, wrap_files=True, nvec=8, flags=['--max-field-sensitivity-array-size', '450']),
+    Ob('aref_export', 'C03/aref_export.c', ['_ZNK5gdstk9Reference6to_gdsEP8_IO_FILEd'], model='ie', defines={'IE_BITS': 14, 'REAL_TOL': 1},
+       stubs=['_ZN5gdstk24is_multiple_of_pi_over_2EdRl', '_ZN5gdstk22gdsii_real_from_doubleEd'], rename={'strlen': 'my_strlen1'},
+       what='array lattice of a reference survives export: the AREF written by Reference::to_gds denotes exactly the repetition\'s instance positions (shared with C03)',
+       bound='rectangular 2x3 / 3x2 at rotation 0 and 90 degrees; regular lattice with exchanged axes; integer-exact model',
+       variants=[dict(KIND=1, COLS=c, ROWS=r, ROT90=z) for (c, r) in ((2, 3), (3, 2)) for z in (0, 1)] + [dict(KIND=2, COLS=2, ROWS=3, ROT90=0)],
+       unwind=30, timeout=400, mem_gb=10, wrap_files=True, real_stub_syms=['cos', 'sin', 'sincos'], nvec=10),
 ]
 BOUNDS = 'single-element libraries of 1-2 cells, symbolic coordinates / tags / text, unit = precision'
 OUTSIDE = 'scaling != 1 (floating-point rounding of lround(coordinate * unit / precision)); rotations (degree/radian factor inexact); repetitions, paths, properties and AREF export in the direct round trip; max_points fracturing (Clipper); strings longer than one character'
